@@ -14,12 +14,14 @@ class C18(Check):
     prop_module = "PoxModel.Properties.C18"
     lean_targets = ["drv_c18"]
     driver = "drv_c18"
-    theorems = ["Pox.C18.reachable_inv", "Pox.C18.bounded", "Pox.C18.unique_live", "Pox.C18.use_once", "Pox.C18.packet_in_form", "Pox.C18.use_to_controller"]
+    theorems = ["Pox.C18.reachable_inv", "Pox.C18.bounded", "Pox.C18.unique_live", "Pox.C18.use_once", "Pox.C18.packet_in_form", "Pox.C18.use_to_controller",
+                "Pox.C18.refines_step", "Pox.C18.refines", "Pox.C18.refines_init", "Pox.C18.spec_step_sound"]
     anchors = [("pox/datapaths/switch.py", "SoftwareSwitchBase.send_packet_in"), ("pox/datapaths/switch.py", "SoftwareSwitchBase._buffer_packet"),
                ("pox/datapaths/switch.py", "SoftwareSwitchBase._process_actions_for_packet_from_buffer"), ("pox/datapaths/switch.py", "SoftwareSwitchBase._rx_packet_out")]
     design_ref = "DESIGN.md §5 C18"
     technique = "Lean 4 proof (invariant over all operation histories tying the ids handed to the controller to the slot list) + differential correspondence through the byte-level switch connection"
-    level_text = ("Theorems reachable_inv/bounded/unique_live/use_once/packet_in_form hold for every history of arrivals, buffer uses and set-config, every pool size and frame: "
+    level_text = ("Refinement (refines_step/refines/refines_init): every history of the buffer code is a history of the abstract specification SpecStep — a map from outstanding ids to frames in which a new buffer gets any unused non-zero id while fewer than max are outstanding, a full pool answers with the whole frame and no id, an outstanding id is released exactly once with its own frame, any other id does nothing — with the controller's view as abstraction map; spec_step_sound: the specification itself never exceeds max and never reuses an outstanding id. "
+                  "Theorems reachable_inv/bounded/unique_live/use_once/packet_in_form hold for every history of arrivals, buffer uses and set-config, every pool size and frame: "
                   "stored packets never exceed max_buffers, an id handed out was not outstanding, using an outstanding id emits exactly its frame once, any other id emits nothing, "
                   "packet-in carries the true total length and either the whole frame without id (pool full) or the first miss_send_len/max_len bytes. "
                   "Each run re-checks the hand-written model against the real SoftwareSwitch over real OpenFlow bytes on exhaustive short histories and random histories to length 60.")
